@@ -190,7 +190,7 @@ def stamp(detector, _p=None, acc=None, **user):
         time.sleep(max(0.0, p["delay"] * (40 - level % 37) / 1000.0))
     detector.photon.array = px.level_array(level, shape)
     if p.get("img"):
-        detector.image.array = px.level_array(1, shape, "uint16")
+        detector.image.array = px.level_array(level % 500 + 1, shape, "uint16")
 
 
 def stamp2(detector, _p=None, **user):
@@ -218,7 +218,7 @@ def stamp2(detector, _p=None, **user):
 # ---------------------------------------------------------------------------
 
 def build(ocfg: dict, variant: int = 0, delay: float = 0.0, exc: str = "ValueError",
-          outputs=None, seed=None, extra_models: bool = True, force: list | None = None):
+          outputs=None, seed=None, extra_models: bool = True, force: list | None = None, img: bool = False):
     from pyxel.exposure import Readout
     from pyxel.observation import Observation, ParameterValues
     from pyxel.pipelines import DetectionPipeline, ModelFunction
@@ -229,7 +229,7 @@ def build(ocfg: dict, variant: int = 0, delay: float = 0.0, exc: str = "ValueErr
     dec_sg = [[j, targets[j]] for j, p in enumerate(ocfg["params"]) if p["sink"] == "signal"]
     msg = "obs-fault " + json.dumps(ocfg.get("fault", []))
     a1 = {"a": 10, "v": [9, 9], "s": "zz", "acc": [1, 2, 3], "opt": {"level": 40, "other": [1, 2]},
-          "_p": {"decode": dec_ph, "delay": delay, "img": False, "job": JOB[0]}}
+          "_p": {"decode": dec_ph, "delay": delay, "img": bool(img), "job": JOB[0]}}
     a2 = {"a": 7.0, "w": [8, 8, 8], "g": 70, "h": -1.5, "k": "k0", "cfg": {"gain": 60.0, "name": "x"},
           "_p": {"decode": dec_sg, "np": np_, "photon_js": [j for j, _ in dec_ph],
                  "fault": list(ocfg.get("fault") or []), "exc": exc, "msg": msg, "job": JOB[0]}}
